@@ -269,8 +269,8 @@ impl Property for C20 {
     }
     fn cases(&self, tier: Tier) -> u64 {
         match tier {
-            Tier::Quick => 200000,
-            Tier::Thorough => 3000000,
+            Tier::Quick => 500_000,
+            Tier::Thorough => 8_000_000,
         }
     }
     fn decode(&mut self, tape: &TapeVal) -> Case {
